@@ -262,6 +262,12 @@ def replay_sat(nat, c, sat, cfg, d):
     fills = (1, 0, 2) if getattr(c, 'dom', 'bits') == 'real' else (0,)
     if sat.get('kind') == 'unwritten' or not model: fills = fills + (random.Random(1), random.Random(2), random.Random(3))
     tries = [model_inputs(c, model, fill=f) for f in fills]
+    if getattr(c, 'dom', 'bits') == 'uf':
+        # float arithmetic is uninterpreted in this domain: the model's float operands carry no meaning (often 0, where wrong and right
+        # coincide); keep the integer part of the model (ranges, indices) and retry with random float data
+        fv = {a.var(i) for a in c.args if not isinstance(a, Scal) and a.kind == 'f' for i in range(a.n)}
+        m2 = {k: v for k, v in model.items() if k not in fv}
+        tries += [model_inputs(c, m2, fill=random.Random(k)) for k in (11, 12, 13)]
     last = {}
     for inp in tries:
         try:
